@@ -174,7 +174,24 @@ var keyPool = []string{`"a\\n"`, `"\\u0041"`, `"\u0041"`, `"C:\\temp"`, `"C:\tem
 // Key appends an object key (from a small pool so duplicates, raw-equal and
 // escaped-equal, are frequent; sometimes a free string).
 func Key(t *rapid.T, b []byte, p Profile) []byte {
-	switch intn(t, 8, "freekey?") {
+	switch intn(t, 9, "freekey?") {
+	case 8:
+		// a long key with one escape in it: decoded lengths round 64, 128 and 256 (name scratch
+		// of the generic decoder, small-buffer thresholds)
+		n := []int{30, 60, 63, 64, 65, 66, 100, 127, 128, 129, 140, 255, 256, 257, 300}[intn(t, 15, "keylen")]
+		esc := []string{`\n`, `\u00e9`, `\"`, `\\`, `\ud83d\ude00`}[intn(t, 5, "keyesc")]
+		at := intn(t, n+1, "keyescat")
+		b = append(b, '"')
+		for i := 0; i < n; i++ {
+			if i == at {
+				b = append(b, esc...)
+			}
+			b = append(b, byte('a'+i%26))
+		}
+		if at == n {
+			b = append(b, esc...)
+		}
+		return append(b, '"')
 	case 0, 1:
 		return Str(t, b, p.StrPieces)
 	case 2:
@@ -300,7 +317,7 @@ func Mutate(t *rapid.T, b []byte) []byte {
 		}
 		return HostileBytes[intn(t, len(HostileBytes), "hb")]
 	}
-	switch intn(t, 11, "mutkind") {
+	switch intn(t, 12, "mutkind") {
 	case 0:
 		return b[:i]
 	case 1:
@@ -342,6 +359,8 @@ func Mutate(t *rapid.T, b []byte) []byte {
 		return append(b, pick())
 	case 8: // structural: duplicate, drop or follow a bracket / comma / colon with another one
 		return MutateStructure(t, b)
+	case 10: // token level: drop 1..3 consecutive tokens, duplicate one, or swap two neighbours
+		return MutateTokens(t, b)
 	case 9: // a complete multi-byte UTF-8 sequence that a rune-based classifier could take for a
 		// space, a digit, a quote or a control character
 		seq := []string{"\u0120", "\u010a", "\u2009", "\u00a0", "\u0085", "\ufeff", "\u0663", "\uff11", "\u201c", "\u2028", "\u3000", "\u0941", "\U0001f60d", "\u007f", "\u0222"}[intn(t, 15, "mbseq")]
@@ -374,6 +393,106 @@ func MutateStructure(t *rapid.T, b []byte) []byte {
 	}
 	c := "[]{},:"[intn(t, 6, "structbyte")]
 	return append(b[:i+1:i+1], append([]byte{c}, b[i+1:]...)...)
+}
+
+// tokenSpans splits b into lexical tokens (string tokens with their escapes, runs of
+// number / literal bytes, single structural bytes); whitespace separates tokens and belongs
+// to none. Malformed input still splits somehow: the result only steers a mutation.
+func tokenSpans(b []byte) [][2]int {
+	var out [][2]int
+	for i := 0; i < len(b); {
+		c := b[i]
+		switch {
+		case c == ' ' || c == '\t' || c == '\n' || c == '\r':
+			i++
+		case c == '"':
+			j := i + 1
+			for j < len(b) && b[j] != '"' {
+				if b[j] == '\\' {
+					j++
+				}
+				j++
+			}
+			if j < len(b) {
+				j++
+			} else {
+				j = len(b)
+			}
+			out = append(out, [2]int{i, j})
+			i = j
+		case c == '[' || c == ']' || c == '{' || c == '}' || c == ',' || c == ':':
+			out = append(out, [2]int{i, i + 1})
+			i++
+		default:
+			j := i + 1
+			for j < len(b) && !strings.ContainsRune(" \t\n\r\"[]{},:", rune(b[j])) {
+				j++
+			}
+			out = append(out, [2]int{i, j})
+			i = j
+		}
+	}
+	return out
+}
+
+// TokenSweep calls f on every token-level edit of doc: 1..3 consecutive tokens dropped at
+// every position, every token duplicated, every pair of neighbours swapped.
+func TokenSweep(doc []byte, f func([]byte) bool) {
+	toks := tokenSpans(doc)
+	for k := range toks {
+		for n := 1; n <= 3 && k+n <= len(toks); n++ {
+			out := append([]byte(nil), doc[:toks[k][0]]...)
+			if !f(append(out, doc[toks[k+n-1][1]:]...)) {
+				return
+			}
+		}
+		out := append([]byte(nil), doc[:toks[k][1]]...)
+		out = append(out, doc[toks[k][0]:toks[k][1]]...)
+		if !f(append(out, doc[toks[k][1]:]...)) {
+			return
+		}
+		if k+1 < len(toks) {
+			out := append([]byte(nil), doc[:toks[k][0]]...)
+			out = append(out, doc[toks[k+1][0]:toks[k+1][1]]...)
+			out = append(out, doc[toks[k][1]:toks[k+1][0]]...)
+			out = append(out, doc[toks[k][0]:toks[k][1]]...)
+			if !f(append(out, doc[toks[k+1][1]:]...)) {
+				return
+			}
+		}
+	}
+}
+
+// MutateTokens edits b at token granularity: structure errors that no single-byte edit makes
+// (a member without its key, a value twice, key and value swapped).
+func MutateTokens(t *rapid.T, b []byte) []byte {
+	toks := tokenSpans(b)
+	if len(toks) == 0 {
+		return b
+	}
+	k := intn(t, len(toks), "token")
+	switch intn(t, 4, "tokenop") {
+	case 0, 1: // drop 1..3 consecutive tokens (keeping the whitespace round them)
+		n := 1 + intn(t, 3, "ntokens")
+		if k+n > len(toks) {
+			n = len(toks) - k
+		}
+		out := append([]byte(nil), b[:toks[k][0]]...)
+		return append(out, b[toks[k+n-1][1]:]...)
+	case 2: // duplicate
+		out := append([]byte(nil), b[:toks[k][1]]...)
+		out = append(out, b[toks[k][0]:toks[k][1]]...)
+		return append(out, b[toks[k][1]:]...)
+	default: // swap with the next token
+		if k+1 >= len(toks) {
+			return b
+		}
+		out := append([]byte(nil), b[:toks[k][0]]...)
+		out = append(out, b[toks[k+1][0]:toks[k+1][1]]...)
+		out = append(out, b[toks[k][1]:toks[k+1][0]]...)
+		out = append(out, b[toks[k][0]:toks[k][1]]...)
+		return append(out, b[toks[k+1][1]:]...)
+	}
 }
 
 // numTails are fraction / exponent tails; appended to a number that already has one they
